@@ -97,3 +97,21 @@ def fromDagAndSorter (full : G) (isTask : Nat → Bool) (prio : Nat → Int) (ol
 
 end Sorter
 end Pytask
+
+namespace Pytask
+namespace Sorter
+
+/-- States a driver can reach, together with the reference edge set `E` (the task-ancestor
+relation of the graph the current sorter was created from) and the list `h` of all tasks handed
+out so far. A driver may ask for any batch size, complete tasks in any order and re-create the
+sorter from a changed graph (`from_dag_and_sorter`) at any time. -/
+inductive Reach : List (Nat × Nat) → Sorter → List Nat → Prop
+  | init (s : Sorter) (hd : s.done = []) (hp : s.processing = []) : Reach s.edges s []
+  | ready {E s h} (n : Nat) (b : List Nat) : Reach E s h → LegalBatch s n b → Reach E (s.take b) (h ++ b)
+  | done {E s h} (xs : List Nat) : Reach E s h → Reach E (s.finish xs) h
+  | recreate {E s h} (full : G) (isTask : Nat → Bool) (prio : Nat → Int) (f s' : Sorter) :
+      Reach E s h → fromDag full isTask prio = .ok f → fromDagAndSorter full isTask prio s = .ok s' →
+      Reach f.edges s' h
+
+end Sorter
+end Pytask
